@@ -6,6 +6,7 @@ import (
 	"go/types"
 	"math"
 	"sort"
+	"strings"
 
 	"golang.org/x/tools/go/ssa"
 )
@@ -80,7 +81,7 @@ func (a Lin) add(b Lin, k int64) Lin { // a + k*b
 	return r
 }
 func (a Lin) scale(k int64) Lin { return Lin{}.add(a, k) }
-func (a Lin) isConst() bool    { return len(a.T) == 0 }
+func (a Lin) isConst() bool     { return len(a.T) == 0 }
 func (a Lin) equal(b Lin) bool {
 	if a.C != b.C || len(a.T) != len(b.T) {
 		return false
@@ -95,18 +96,18 @@ func (a Lin) equal(b Lin) bool {
 
 // FB holds per-function analysis state.
 type FB struct {
-	c        *Ctx
-	fn       *ssa.Function
-	linMemo  map[ssa.Value]Lin
-	rngMemo  map[ssa.Value][2]int64
-	rngBusy  map[ssa.Value]bool
-	factMemo map[*ssa.BasicBlock][]Lin
-	lenMemo  map[ssa.Value]Lin
-	canonMap map[canonKey]ssa.Value
-	nnPhis   map[*ssa.Phi]bool
-	nnDone   bool
+	c            *Ctx
+	fn           *ssa.Function
+	linMemo      map[ssa.Value]Lin
+	rngMemo      map[ssa.Value][2]int64
+	rngBusy      map[ssa.Value]bool
+	factMemo     map[*ssa.BasicBlock][]Lin
+	lenMemo      map[ssa.Value]Lin
+	canonMap     map[canonKey]ssa.Value
+	nnPhis       map[*ssa.Phi]bool
+	nnDone       bool
 	storedFields map[*types.Var]bool
-	ptrBits  int
+	ptrBits      int
 }
 
 func (c *Ctx) FB(fn *ssa.Function) *FB {
@@ -1017,7 +1018,6 @@ func (c *Ctx) fieldUseIndex() map[*types.Var]*fieldUses {
 	return m
 }
 
-
 // linRange: interval of a linear form from the ranges of its symbols.
 func (fb *FB) linRange(l Lin) (int64, int64) {
 	lo, hi := l.C, l.C
@@ -1383,6 +1383,16 @@ func (fb *FB) withIntrinsic(t Lin, facts []Lin) []Lin {
 	var visit func(l Lin, d int)
 	visit = func(l Lin, d int) {
 		for k := range l.T {
+			// r = bytes/strings.Index*(s, ...): -1 <= r <= len(s) - 1
+			if call, isCall := k.(*ssa.Call); isCall && !seen[call] {
+				if f := call.Call.StaticCallee(); f != nil && f.Pkg != nil && (f.Pkg.Pkg.Path() == "bytes" || f.Pkg.Pkg.Path() == "strings") &&
+					(strings.HasPrefix(f.Name(), "Index") || strings.HasPrefix(f.Name(), "LastIndex")) && len(call.Call.Args) >= 1 {
+					seen[call] = true
+					rsym := linSym(ssa.Value(call))
+					out = append(append([]Lin{}, out...), rsym.add(linConst(1), 1), fb.lenLin(call.Call.Args[0]).add(rsym, -1).add(linConst(1), -1))
+				}
+				continue
+			}
 			bo, ok := k.(*ssa.BinOp)
 			if !ok || bo.Op != token.QUO || seen[bo] || d > 3 {
 				continue
